@@ -79,7 +79,7 @@ typedef struct ce_shared {
     int handle_size;
     uintptr_t rcb_fn[CE_MAX_RANKS];     /* address of every rank's remote-completion callback (r_tag of put/get) */
     /* progress report of the drivers (for describe_abort) */
-    int phase[CE_MAX_RANKS], op_idx[CE_MAX_RANKS], npending[CE_MAX_RANKS], can_serve[CE_MAX_RANKS];
+    int phase[CE_MAX_RANKS], op_idx[CE_MAX_RANKS], npending[CE_MAX_RANKS];
     int rank_done[CE_MAX_RANKS];
 } ce_shared_t;
 
